@@ -79,6 +79,11 @@ class SurfaceMonitor(Monitor):
         import random
         self.poll_rng = random.Random((self.sim.seed << 3) ^ 0x9011)   # client polls: own stream, never the scheduler's
         self.client_polls = []
+        # execution names the scenario itself starts more than once: a later run under the same name is a new story
+        self.reruns_left = {}
+        for ex in res.scenario.get("executions", []):
+            k = (ex.get("machine"), ex.get("name"))
+            self.reruns_left[k] = self.reruns_left.get(k, -1) + 1
         if self.preempt:
             if self.redis is not None:
                 self.redis.boundary_hook = self.on_redis_command
@@ -209,6 +214,13 @@ class SurfaceMonitor(Monitor):
         elif not isinstance(sp, int) or isinstance(sp, bool) or not lo - 1000 <= sp <= hi + 1000:
             self.add("C11", "notification-units", "stopDate %r is not integer milliseconds" % (sp,))
         seq = self.pub.setdefault(arn, [])
+        if st == "RUNNING" and seq and seq[-1].get("status") in TERMINAL and isinstance(arn, str):
+            k = tuple(arn.split(":")[-2:])
+            if self.reruns_left.get(k, 0) > 0 and d.get("startDate") != seq[0].get("startDate"):
+                # the scenario started this name again after the earlier run had ended
+                self.reruns_left[k] -= 1
+                self.probe("execution-name-run-again")
+                seq = self.pub[arn] = []
         if self.exactly_once:
             if any(x.get("status") == st for x in seq):
                 self.add("C11", "status-change-published-twice", "%s: %s published again" % (arn, st), witness=st)
